@@ -232,6 +232,8 @@ def run(ctx):
     rep.rule('R13.1', 'yield iff predicate XOR complement; exactly one yield of the unchanged row; missing cell -> `missing`')
     rep.rule('R13.2', 'each selector applies its documented predicate and forwards complement/missing unchanged')
     rep.rule('R13.3', 'complement siblings: searchcomplement / biselect / facet')
+    rep.rule('R13.7', 'search applies the pattern to the text of one cell at a time')
+    r137(ctx, rep)
     rep.rule('R13.4', 'positional selection = itertools.islice with the user\'s arguments')
     rep.assumptions = ['Comparable defines all six operators, so mixed raw/wrapped comparisons land in its ladder (C04)',
                        'user predicates are pure']
@@ -426,3 +428,53 @@ def r134(ctx, rep):
         rep.held('R13.4', tl, 'tail window', 'keeps the last n rows', tl.node)
     else:
         rep.violated('R13.4', tl, 'tail window', 'tail(n) must keep exactly the last n rows (deque bounded by n)', tl.node)
+
+
+# ------------------------------------------------------------------------ R13.7
+def r137(ctx, rep):
+    """search(table, pattern[, field]) selects the rows in which the pattern
+    matches *a value*: the compiled pattern is applied to the text of one cell
+    at a time (any() over the cells).  Applied to several cells joined into one
+    string, anchors (^ $ \\A \\Z) only see the first / last cell and classes
+    that match the separator let a match span two cells."""
+    fn = ctx.project.need_fn('petl.transform.regex:itersearch')
+    progs = set()
+    for x in own_nodes(fn.node):
+        if isinstance(x, ast.Assign) and isinstance(x.value, ast.Call) and norm(x.value.func) in ('re.compile', 'compile'):
+            for t in x.targets:
+                if isinstance(t, ast.Name):
+                    progs.add(t.id)
+    if not progs:
+        raise AnalysisError('anchor vanished: compiled pattern of itersearch')
+    n = 0
+    for x in ast.walk(fn.node):
+        if not (isinstance(x, ast.Call) and isinstance(x.func, ast.Attribute) and isinstance(x.func.value, ast.Name)
+                and x.func.value.id in progs and x.func.attr in ('search', 'match', 'fullmatch', 'findall', 'finditer')):
+            continue
+        n += 1
+        c = norm(x)[:70]
+        a = x.args[0] if x.args else None
+        ok = False
+        why = 'argument shape not recognised'
+        if a is not None and isinstance(a, ast.Call) and norm(a.func) in ('text_type', 'str') and len(a.args) == 1:
+            v = a.args[0]
+            if isinstance(v, ast.Name):
+                # a comprehension variable ranging over the cells
+                comp = [g for p in ast.walk(fn.node) if isinstance(p, (ast.GeneratorExp, ast.ListComp))
+                        for g in p.generators if isinstance(g.target, ast.Name) and g.target.id == v.id
+                        and any(y is x for y in ast.walk(p))]
+                ok = bool(comp)
+            elif isinstance(v, ast.Subscript) and not isinstance(v.slice, ast.Slice):
+                ok = True
+        if a is not None and any(isinstance(y, ast.Attribute) and y.attr == 'join' for y in ast.walk(a)) or \
+                (a is not None and any(isinstance(y, (ast.BinOp, ast.JoinedStr)) for y in ast.walk(a))):
+            rep.violated('R13.7', fn, c,
+                         'the pattern is applied to several cells combined into one string (`%s`): ^ and $ then only match '
+                         'at the first / last cell and a match can span two cells, so rows move between search and '
+                         'searchcomplement' % norm(a)[:60], x)
+        elif ok:
+            rep.held('R13.7', fn, c, 'applied to the text of one cell', x)
+        else:
+            rep.undecided('R13.7', fn, c, why, x)
+    if n < 3:
+        raise AnalysisError('anchor vanished: itersearch applies the pattern at %d sites' % n)
